@@ -249,6 +249,24 @@ fn check_path(c: &PathCase) -> Verdict {
             None => return Err(Issue::new("path:panic", format!("Expr::parse panicked on access path {text:?}"))),
         }
     }
+    // an unknown top-level field stays unknown when an earlier rule of the ruleset happens to have that name
+    if let Want::UnknownRef(name) = &want {
+        let spec = crate::probe::SetSpec {
+            rules: vec![(name.clone(), Expr::value(424_242)), ("r".into(), expr.clone())],
+            fns: BTreeMap::new(),
+            symbols: BTreeMap::new(),
+            suspend: 0,
+        };
+        let built = crate::probe::build(&spec, false);
+        let r = crate::core::catch(|| crate::core::block_on(built.ruleset.evaluate_value(&c.input)).map(|mut o| o.pop().expect("outcomes").value))
+            .map_err(|p| Issue::new("path:panic", format!("panic {p}")))?;
+        if !matches!(&r, Ok(Err(reval::Error::UnknownRef(n))) if n == name) {
+            return Err(Issue::new(
+                "path:unknown-ref:after-a-rule-of-that-name",
+                format!("{} after a rule named {name:?}: expected an unknown-reference error naming {name:?}, implementation {:?}; input {}", show_expr(&expr), r.map(|x| me::show_actual(&x)), show_value(&c.input)),
+            ));
+        }
+    }
     for (via, e) in exprs {
         let case = EvalCase::plain(e, c.input.clone());
         let r = match observe(&case).actual {
